@@ -51,6 +51,11 @@ class Interop(core.Scenario):
         iv, to = p['heartbeat']
         self.iv, self.to = iv, to
         lat = self.lat = p.get('latency', 0.0)
+        if p.get('neighbour'):
+            # other servers of this package were created earlier in the same process with another configuration
+            import engineio
+            engineio.Server(async_mode='threading', transports=['polling'], allow_upgrades=False, ping_interval=7)
+            engineio.AsyncServer(async_mode='asgi', transports=['polling'], allow_upgrades=False, ping_interval=7)
         w = self.world = combo.ComboWorld(p['client'], p['server'],
                                           server_kwargs=dict(ping_interval=iv, ping_timeout=to, async_handlers=False), latency=lat,
                                           behaviour=_Greeter() if p.get('greet') else None)
@@ -250,6 +255,9 @@ def param_list(ctx, pairs):
                     ps.append(dict(base_p, c2s=n, s2c=0, atonce=True))
                     ps.append(dict(base_p, c2s=0, s2c=n, atonce=True))
                 ps.append(dict(base_p, c2s=0, s2c=0, idle=6))
+                if hb == [1.0, 1.0]:
+                    # differently configured servers existed in the process before this one
+                    ps.append(dict(base_p, c2s=2, s2c=2, neighbour=True))
                 if hb == [1.0, 1.0]:
                     # the server's connect handler greets the session before it is established
                     ps.append(dict(base_p, c2s=1, s2c=2, greet=True))
